@@ -425,3 +425,38 @@ class _Gen:
                 n["group"] = r.choice(["G1", "G2", "Analog", "Digital"])
         for n in self.nodes:
             n["via_rail"] = [bool(self.by[p].get("rail")) and r.random() < o["via_rail"] for p in n["parents"]]
+
+
+def scale_currents(spec, f):
+    """Electrically similar system with every current multiplied by f (voltages unchanged): loads, quiescent /
+    ground / sleep currents x f, resistances / f, io axes of tables x f, tabulated ground currents x f."""
+    import copy
+
+    out = copy.deepcopy(spec)
+
+    def tab(t, z, scale_values):
+        t = dict(t)
+        t["io"] = [sig(x * f, 6) for x in t["io"]]
+        if scale_values:
+            t[z] = [[sig(v * f, 6) for v in row] for row in t[z]]
+        return t
+
+    for c in out["comps"]:
+        a, k = c["args"], c["kind"]
+        for key in ("pwr", "pwrs", "ii", "iis", "iq"):
+            if key in a and not isinstance(a[key], dict):
+                a[key] = sig(a[key] * f, 6)
+            elif key in a:
+                a[key] = tab(a[key], key if key in a[key] else "ig", True)
+        if "ig" in a:
+            a["ig"] = tab(a["ig"], "ig", True) if isinstance(a["ig"], dict) else sig(a["ig"] * f, 6)
+        if "rs" in a:
+            a["rs"] = [sig(x / f, 6) for x in a["rs"]] if isinstance(a["rs"], list) else sig(a["rs"] / f, 6)
+        for key in ("eff", "vdrop"):
+            if isinstance(a.get(key), dict):
+                a[key] = tab(a[key], key, False)
+        ph = c.get("phase")
+        if isinstance(ph, dict):
+            c["phase"] = {p: (sig(v / f, 6) if k == "RLoad" else sig(v * f, 6)) for p, v in ph.items()}
+    out.setdefault("_meta", {})["current_scale"] = f
+    return out
